@@ -228,6 +228,8 @@ def canon(v: Any) -> Any:
         return ("bytearray", bytes(v))
     if t is io.BytesIO:
         return ("BytesIO", v.getvalue())
+    if t is univ.NonSeek:          # (a fresh stream object is made for every call: compared by content)
+        return ("NonSeek", v._buf.getvalue())
     try:
         hash(v)
     except TypeError:
